@@ -310,7 +310,7 @@ func TestC14Server(t *testing.T) {
 
 func TestC14ServerLists(t *testing.T) {
 	rec := evid.For("C14")
-	rapid.Check(t, func(rt *rapid.T) {
+	checkProp(t, func(rt *rapid.T) {
 		var c c14ServerCase
 		c.Mode = rapid.SampledFrom(c01Modes).Draw(rt, "mode")
 		c.Lines = rapid.Bool().Draw(rt, "lines")
@@ -590,7 +590,7 @@ func TestC14Interleaved(t *testing.T) {
 	serverOffers := []string{"permessage-deflate", "permessage-deflate; client_no_context_takeover", "permessage-deflate; server_no_context_takeover", "permessage-deflate; client_no_context_takeover; server_no_context_takeover", "permessage-deflate; client_max_window_bits"}
 	clientResps := []string{"permessage-deflate", "permessage-deflate; client_no_context_takeover", "permessage-deflate; server_no_context_takeover", "permessage-deflate; client_no_context_takeover; server_no_context_takeover"}
 	first := true
-	rapid.Check(t, func(rt *rapid.T) {
+	checkProp(t, func(rt *rapid.T) {
 		n := rapid.IntRange(2, 4).Draw(rt, "nConns")
 		sides := make([]side, n)
 		for i := range sides {
@@ -704,7 +704,7 @@ func TestC14Interleaved(t *testing.T) {
 // extension it never meant to offer.
 func TestC14SharedHeader(t *testing.T) {
 	rec := evid.For("C14")
-	rapid.Check(t, func(rt *rapid.T) {
+	checkProp(t, func(rt *rapid.T) {
 		hdr := http.Header{}
 		if rapid.Bool().Draw(rt, "customHeader") {
 			hdr.Set("X-App", "1")
